@@ -440,3 +440,63 @@ Proof. vm_compute. split; reflexivity. Qed.
 Lemma single_raiser_loses_call_l :
   run_wrapped HCalc [mk 0 1 RaiseBefore] (wrapped (Ok 7)) = ([Enter 0], Err (ExtExn 0)).
 Proof. reflexivity. Qed.
+
+(* ---------- execution modes ---------- *)
+Require Import MV.Model.Modes.
+
+Lemma run_calls_in_sync_l : forall order copy fails cs, run_calls_in MSync order copy fails cs = run_calls order fails cs.
+Proof.
+  intros order copy fails cs. induction cs as [|c r IH]; [reflexivity|].
+  cbn [run_calls_in run_calls held shares_objects]. rewrite IH. reflexivity.
+Qed.
+
+Lemma run_wrapped_perm_l : forall {A} h order order' (f : comp A), Permutation order order' ->
+  NoDup (map prio (matching h order)) -> run_wrapped h order' f = run_wrapped h order f.
+Proof.
+  intros A h order order' f P N. unfold run_wrapped. symmetry. apply dispatch_perm_l; [|exact N].
+  unfold matching. apply filter_perm. exact P.
+Qed.
+
+Lemma held_perm : forall m order copy s, Permutation order (copy s) -> Permutation order (held m order copy s).
+Proof. intros m order copy s P. unfold held. destruct (shares_objects m); [apply Permutation_refl | exact P]. Qed.
+
+(* distinct priorities on every hook: the whole run is the SYNC run, whatever the mode and the copies' orders *)
+Lemma run_calls_mode_independent_l : forall m order copy fails cs,
+  (forall s, Permutation order (copy s)) -> (forall h, NoDup (map prio (matching h order))) ->
+  run_calls_in m order copy fails cs = run_calls order fails cs.
+Proof.
+  intros m order copy fails cs P N. induction cs as [|c r IH]; [reflexivity|].
+  cbn [run_calls_in run_calls].
+  rewrite (run_wrapped_perm_l (kind_hook (snd c)) order (held m order copy (fst c))); [|apply held_perm, P | apply N].
+  rewrite IH. reflexivity.
+Qed.
+
+(* any priorities (ties included): every mode's run is the ideal run over the orders actually held *)
+Lemma run_calls_in_ideal_l : forall m order copy fails cs,
+  run_calls_in m order copy fails cs = ideal_run_calls_at (held m order copy) fails cs.
+Proof.
+  intros m order copy fails cs. induction cs as [|c r IH]; [reflexivity|].
+  cbn [run_calls_in ideal_run_calls_at]. rewrite run_ideal_l. rewrite IH. reflexivity.
+Qed.
+
+(* the property for one wrapped call in any mode: the chain held by the object of step s consists of exactly the
+   registered extenders that declare the hook, is sorted by priority, and sees the call exactly once *)
+Lemma any_mode_sees_once_l : forall {A} m order copy s h (w : result A),
+  Permutation order (copy s) ->
+  2 <= List.length (matching h order) -> NoDup (map eid (matching h order)) ->
+  let o := held m order copy s in
+  snd (run_wrapped h o (wrapped w)) = w /\
+  sees_once (chain_order h o) (is_ok w) (fst (run_wrapped h o (wrapped w))) /\
+  by_priority (chain_order h o) /\ Permutation (chain_order h o) (matching h order).
+Proof.
+  intros A m order copy s h w P L N o.
+  assert (PM : Permutation (matching h order) (matching h o)).
+  { unfold matching. apply filter_perm. apply held_perm. exact P. }
+  assert (L' : 2 <= List.length (matching h o)) by (rewrite <- (Permutation_length PM); exact L).
+  assert (N' : NoDup (map eid (matching h o))).
+  { eapply Permutation_NoDup; [apply Permutation_map; exact PM | exact N]. }
+  destruct (chain_sees_once_l h o w L' N') as [R S].
+  split; [exact R|]. split; [exact S|]. split.
+  - rewrite chain_order_eq. apply isort_sorted.
+  - rewrite chain_order_eq. eapply Permutation_trans; [apply isort_perm | apply Permutation_sym; exact PM].
+Qed.
